@@ -75,7 +75,9 @@ def cases(rng, tier):
             for o in obs:
                 o["l"] = "".join("I" if q in srcs else c for q, c in enumerate(o["l"]))
         yield ("workflow", {"kind": kind, "nq": nq, "qregs": gen.rand_regs(rng, nq), "instrs": instrs, "obs": obs,
-                            "auto": rng.random() < 0.6, "N": rng.choice([None, None, 3, 50, 500]), "seed": rng.randrange(1 << 30)})
+                            "auto": rng.random() < 0.6, "N": rng.choice([None, None, 3, 50, 500]), "seed": rng.randrange(1 << 30),
+                            # unseparated call form (the circuit with wrapped Moves is passed as one QuantumCircuit): only without markers
+                            "single": kind != "markers" and rng.random() < 0.4})
 
 
 def _pipeline(payload):
@@ -94,6 +96,8 @@ def _pipeline(payload):
         ids = [i for i, ins in enumerate(payload["instrs"]) if ins["name"] == "move"]
         qc1, _ = cut_gates(qc0, ids)
         obs1 = obs0
+    if payload.get("single"):
+        return qc0, obs0, qc1, obs1, None
     labels = None
     if not payload["auto"]:
         labels = _partition_labels_from_circuit(qc1, ignore=lambda inst: isinstance(inst.operation, TwoQubitQPDGate))
@@ -119,11 +123,26 @@ def _run(payload):
     np.random.choice = sc
     CE.generate_qpd_weights = wrapper
     try:
-        exps, coeffs = CE.generate_cutting_experiments(pp.subcircuits, pp.subobservables, Nv)
+        if pp is None:
+            exps, coeffs = CE.generate_cutting_experiments(qc1, obs1, Nv)
+        else:
+            exps, coeffs = CE.generate_cutting_experiments(pp.subcircuits, pp.subobservables, Nv)
     finally:
         CE.generate_qpd_weights = real_gqw
         np.random.choice = old
+    if pp is None:
+        pp = _Single(qc1, obs1)
+        exps = {"A": exps}
     return qc0, obs0, pp, exps, coeffs, captured
+
+
+class _Single:
+    """the unseparated call form, presented like a one-partition problem"""
+
+    def __init__(self, qc, obs):
+        self.subcircuits = {"A": qc}
+        self.subobservables = {"A": obs}
+        self.single = True
 
 
 def _key(payload):
@@ -137,7 +156,8 @@ def _real(payload):
     parts = [{"label": k, "circuit": canon.canon_circuit(pp.subcircuits[lab], t), "groups": c05._groups(pp.subobservables[lab])}
              for k, lab in enumerate(keys)]
     res = [[keys.index(lab), [c05._strip(canon.canon_circuit(c)) for c in cs]] for lab, cs in exps.items()]
-    line = {"op": "c05.generate", "bases": t.canon(), "parts": parts, "separated": True, "weights": captured.get("weights", [])}
+    line = {"op": "c05.generate", "bases": t.canon(), "parts": parts, "separated": not getattr(pp, "single", False),
+            "weights": captured.get("weights", [])}
     return {"ok": {"experiments": res, "coefficients": [[frac(c), w.name] for c, w in coeffs]}}, line
 
 
@@ -201,7 +221,10 @@ def oracle(kind, payload):
     if payload["N"] is None:
         # values unaffected by the removals: reconstruct from exactly simulated subexperiments
         results = {lab: SamplerResult([QuasiDistribution(d) for d in workflow.exact_quasi_dists(cs)], [{}] * len(cs)) for lab, cs in exps.items()}
-        got = reconstruct_expectation_values(results, coeffs, pp.subobservables)
+        if getattr(pp, "single", False):
+            got = reconstruct_expectation_values(results["A"], coeffs, pp.subobservables["A"])
+        else:
+            got = reconstruct_expectation_values(results, coeffs, pp.subobservables)
         want = sem.expectations(qc0, [o["l"] for o in payload["obs"]])
         if not np.allclose(got, want, atol=1e-8):
             return f"reconstructed {list(np.round(got, 8))} but the uncut circuit gives {list(np.round(want, 8))}"
